@@ -147,6 +147,10 @@ func oracleC15(c *props.Case) (verdict props.Verdict) {
 	var bl []BannerSpec
 	seen := map[int]bool{}
 	for i, b := range sc.Banners {
+		if b.At != "" {
+			bl = append(bl, b)
+			continue
+		}
 		b.Chg = b.Chg % nChg
 		if i == 0 && faultChg >= 0 {
 			// "rel": first banner on the rejected command or the one before it
@@ -199,6 +203,8 @@ func oracleC15(c *props.Case) (verdict props.Verdict) {
 			knownSig = sigF39
 		case isF42(sc, ref):
 			knownSig = sigF42
+		case isF44(sc):
+			knownSig = sigF44
 		}
 	}
 	f39 := knownSig != ""
@@ -218,6 +224,9 @@ func oracleC15(c *props.Case) (verdict props.Verdict) {
 		}
 	}
 	for _, b := range sc.Banners {
+		if b.At != "" {
+			classes = append(classes, "c15:at-"+b.At)
+		}
 		classes = append(classes, "c15:"+b.Form+":"+b.Kind)
 		if b.Split {
 			classes = append(classes, "c15:split-write")
@@ -245,7 +254,7 @@ func oracleC15(c *props.Case) (verdict props.Verdict) {
 		if l.Class == "change" {
 			idx++
 			for _, b := range sc.Banners {
-				if b.Kind == "0:01:00" && b.Chg == idx {
+				if b.At == "" && b.Kind == "0:01:00" && b.Chg == idx {
 					rearmed := false
 					for k, m := range o.Lines[i+1:] {
 						if m.Class == "reload-arm" {
@@ -298,6 +307,24 @@ func isF39(sc *Scenario, ref *Outcome) bool {
 			if b.Chg == idx && (b.Form == "after" || b.Form == "after-prompt" || b.Form == "inside" && b.Offset >= len(l.Text)) {
 				return true
 			}
+		}
+	}
+	return false
+}
+
+const sigF44 = "ios:F44-banner-with-fresh-prompt-at-framing-command-desynchronises-dialogue"
+
+// isF44 recognises the shape of known finding F44: a banner followed by a
+// fresh prompt in front of the echo of one of the two commands that frame
+// the guarded block ("configure terminal" behind "reload in", "end" in front
+// of "reload cancel"). These are sent with SendCmd, which waits for one
+// prompt and knows nothing of banners: it takes the fresh prompt for the
+// answer, and the real echo and answer are taken for the output of the next
+// command.
+func isF44(sc *Scenario) bool {
+	for _, b := range sc.Banners {
+		if b.At != "" && (b.Form == "before" || b.Form == "after-prompt") {
+			return true
 		}
 	}
 	return false
